@@ -29,6 +29,7 @@ import (
 	files "github.com/ipfs/go-ipfs-files"
 	ipld "github.com/ipfs/go-ipld-format"
 	merkledag "github.com/ipfs/go-merkledag"
+	unixfs "github.com/ipfs/go-unixfs"
 	unixfile "github.com/ipfs/go-unixfs/file"
 	"github.com/ipfs/go-unixfs/importer/balanced"
 	ihelper "github.com/ipfs/go-unixfs/importer/helpers"
@@ -52,6 +53,7 @@ type FileSpec struct {
 	Seed     int        `json:"seed,omitempty"`
 	Children []FileSpec `json:"children,omitempty"`
 	Dir      bool       `json:"dir,omitempty"`
+	Target   string     `json:"target,omitempty"` // a symbolic link to this path
 }
 
 type Fault struct {
@@ -86,6 +88,11 @@ func genTree(r *simkit.Rng, chunk int, depth int, many bool) FileSpec {
 				c.Name = fmt.Sprintf("sub%d", i)
 			} else {
 				c.Name = fmt.Sprintf("f%d.bin", i)
+			}
+			if r.Chance(0.12) {
+				// a symbolic link: its own small UnixFS node, built by a separate path
+				// of the importer
+				c = FileSpec{Name: fmt.Sprintf("lnk%d", i), Target: []string{"../f0.bin", "f1.bin", "sub0/file.bin", "/etc/hostname", "."}[r.Intn(5)]}
 			}
 			if r.Chance(0.1) {
 				c.Name = "." + c.Name // hidden
@@ -306,6 +313,9 @@ func content(seed, size int) []byte {
 }
 
 func build(f *FileSpec) files.Node {
+	if f.Target != "" {
+		return files.NewLinkFile(f.Target, nil)
+	}
 	if !f.Dir {
 		return files.NewBytesFile(content(f.Seed, f.Size))
 	}
@@ -321,6 +331,10 @@ func flatten(f *FileSpec, prefix string, hidden bool, out map[string][]byte, top
 	// (the hidden flag is applied by the client when it builds the multipart
 	// request; inside the adder every entry it receives is added)
 	p := prefix
+	if f.Target != "" {
+		out[p] = []byte("symlink -> " + f.Target)
+		return
+	}
 	if !f.Dir {
 		out[p] = content(f.Seed, f.Size)
 		return
@@ -334,6 +348,8 @@ func flatten(f *FileSpec, prefix string, hidden bool, out map[string][]byte, top
 
 func readBack(ctx context.Context, dserv ipld.DAGService, n files.Node, prefix string, out map[string][]byte) error {
 	switch v := n.(type) {
+	case *files.Symlink:
+		out[prefix] = []byte("symlink -> " + v.Target)
 	case files.File:
 		b, err := io.ReadAll(v)
 		if err != nil {
@@ -537,6 +553,25 @@ func (w *world) judge(params *api.AddParams, tree *FileSpec, root cid.Cid, err e
 			run.Probe("importer_reference_checked")
 			if !r2.Equals(root) {
 				run.Violate("C13/root_differs_from_importer", "", "cluster add returned %s, the go-unixfs importer computes %s for the same bytes and parameters", root, r2)
+			}
+		}
+	}
+	// independent reference for whole trees (directories, symbolic links)
+	if tree.Dir {
+		if tn, e2 := importTree(tree, params); e2 == nil {
+			want := tn.Cid()
+			if params.Wrap {
+				if prefix, e3 := cidPrefix(params); e3 == nil {
+					wd := unixfs.EmptyDirNode()
+					wd.SetCidBuilder(prefix)
+					if wd.AddNodeLink(tree.Name, tn) == nil {
+						want = wd.Cid()
+					}
+				}
+			}
+			run.Probe("tree_reference_checked")
+			if !want.Equals(root) {
+				run.Violate("C13/root_differs_from_importer", "tree", "cluster add returned %s; go-unixfs/go-merkledag compute %s for the same tree (directories, files, symbolic links) with cid-version=%d hash=%s", root, want, params.CidVersion, params.HashFun)
 			}
 		}
 	}
@@ -805,21 +840,76 @@ func shardLeaves(ctx context.Context, dserv ipld.DAGService, c cid.Cid, content 
 }
 
 func importFile(data []byte, params *api.AddParams) (cid.Cid, error) {
-	st := newStore()
-	chnk, err := chunker.FromString(bytes.NewReader(data), params.Chunker)
+	nd, err := importNode(data, params)
 	if err != nil {
 		return cid.Undef, err
 	}
+	return nd.Cid(), nil
+}
+
+func cidPrefix(params *api.AddParams) (*cid.Prefix, error) {
 	prefix, err := merkledag.PrefixForCidVersion(params.CidVersion)
 	if err != nil {
-		return cid.Undef, err
+		return nil, err
+	}
+	prefix.MhType = multihash.Names[params.HashFun]
+	prefix.MhLength = -1
+	return &prefix, nil
+}
+
+// importTree computes the root of a file tree with go-unixfs and go-merkledag
+// alone (no code of ipfs-cluster): files through the importer's layouts,
+// symbolic links and directories as plain UnixFS nodes, every node built with
+// the requested CID version and hash function.
+func importTree(f *FileSpec, params *api.AddParams) (ipld.Node, error) {
+	prefix, err := cidPrefix(params)
+	if err != nil {
+		return nil, err
+	}
+	switch {
+	case f.Target != "":
+		d, err := unixfs.SymlinkData(f.Target)
+		if err != nil {
+			return nil, err
+		}
+		n := merkledag.NodeWithData(d)
+		n.SetCidBuilder(prefix)
+		return n, nil
+	case !f.Dir:
+		return importNode(content(f.Seed, f.Size), params)
+	}
+	dir := unixfs.EmptyDirNode()
+	dir.SetCidBuilder(prefix)
+	cs := append([]FileSpec{}, f.Children...)
+	sort.Slice(cs, func(i, j int) bool { return cs[i].Name < cs[j].Name })
+	for i := range cs {
+		n, err := importTree(&cs[i], params)
+		if err != nil {
+			return nil, err
+		}
+		if err := dir.AddNodeLink(cs[i].Name, n); err != nil {
+			return nil, err
+		}
+	}
+	return dir, nil
+}
+
+func importNode(data []byte, params *api.AddParams) (ipld.Node, error) {
+	st := newStore()
+	chnk, err := chunker.FromString(bytes.NewReader(data), params.Chunker)
+	if err != nil {
+		return nil, err
+	}
+	prefix, err := merkledag.PrefixForCidVersion(params.CidVersion)
+	if err != nil {
+		return nil, err
 	}
 	prefix.MhType = multihash.Names[params.HashFun]
 	prefix.MhLength = -1
 	dbp := ihelper.DagBuilderParams{Dagserv: st.dserv, RawLeaves: params.RawLeaves, Maxlinks: ihelper.DefaultLinksPerBlock, CidBuilder: &prefix}
 	db, err := dbp.New(chnk)
 	if err != nil {
-		return cid.Undef, err
+		return nil, err
 	}
 	var nd ipld.Node
 	if params.Layout == "trickle" {
@@ -828,9 +918,9 @@ func importFile(data []byte, params *api.AddParams) (cid.Cid, error) {
 		nd, err = balanced.Layout(db)
 	}
 	if err != nil {
-		return cid.Undef, err
+		return nil, err
 	}
-	return nd.Cid(), nil
+	return nd, nil
 }
 
 func keys(m map[string][]byte) []string {
